@@ -366,11 +366,12 @@ def run_mc(prop, tier, seed, res):
         res.notes["MC_Transform.cases"] = k
         return
     plan = {
-        "C03": [("dead", 25, 400)],
-        "C06": [("stop", 25, 400)],
+        "C03": [("dead", 25, 400), ("zerow", 36, 36), ("finaldeadend", 20, 72)],
+        "C06": [("stop", 25, 400), ("degen", 75, 75)],
         "C10": [("dead", 15, 200)],
-        "C02": [("stop", 25, 400)],
-        "C05": [("stop", 20, 300)],
+        "C02": [("stop", 25, 400), ("minreachrank", 48, 48)],
+        "C05": [("stop", 20, 300), ("gap5", 16, 16)],
+        "C14": [("forced", 20, 128)],
     }.get(prop, [])
     for fam, kq, kt in plan:
         k = kq if tier == "quick" else kt
